@@ -92,6 +92,7 @@ SMALL_GRIDS = [
     ["cart", [[0, 1], [-1, 3]], [3, 2], [True, False]],
     ["cart", [[0, 2], [0, 1]], [1, 3], [False, True]],
     ["cart", [[0, 1], [0, 2], [-3, 3]], [2, 3, 2], [False, True, False]],
+    ["cart", [[0, 1], [0, 2], [0, 3]], [2, 2, 3], [False, False, False]],
     ["polar", [1, 2], 3],
     ["polar", 2, 3],
     ["sph", 2, 3],
@@ -104,7 +105,6 @@ MORE_GRIDS = [
     ["cart", [[1e-3, 3e-3]], [5], [False]],
     ["cart", [[0, 1], [0, 1]], [3, 3], [False, False]],
     ["cart", [[-2, -1], [5, 8]], [2, 4], [False, True]],
-    ["cart", [[0, 1], [0, 2], [0, 3]], [2, 2, 3], [False, False, False]],
     ["cart", [[0, 3], [0, 2], [0, 1]], [3, 1, 2], [True, False, True]],
     ["polar", [0.5, 3], 5],
     ["sph", 1, 4],
